@@ -144,8 +144,11 @@ func (t *WebSocketHttp) HandleDirective(ctx context.Context, di directive.Instan
 // ResolveLookupHTTPHandler resolves the LookupHTTPHandler directive conditionally.
 // Returns nil, nil if no handlers matched.
 func (t *WebSocketHttp) ResolveLookupHTTPHandler(ctx context.Context, dir bifrost_http.LookupHTTPHandler) ([]directive.Resolver, error) {
-	handler, _ := bifrost_http.MatchServeMuxPattern(t.mux, dir)
-	if handler == nil {
+	// ServeMux.Handler never returns a nil handler: when no registered pattern
+	// matches it returns the not-found (or method-not-allowed) handler with an
+	// empty pattern.
+	handler, pattern := bifrost_http.MatchServeMuxPattern(t.mux, dir)
+	if handler == nil || pattern == "" {
 		return nil, nil
 	}
 
